@@ -16,9 +16,17 @@ Fixpoint corr_hist (E : env) (c : cls) (i : Z) (s : inst) (h : list (op * obs)) 
   | (o, ob) :: r =>
       let '(s1, out) := step E c s o in
       map (fun k => 100 * i + k)
-          (chk 1 (outcome_eqb out (o_out ob)) ++ chk 2 (same_on (names_of c) s1 (o_after ob)))
+          (chk 1 (outcome_eqb out (o_out ob)) ++ chk 2 (same_on (names_of c) s1 (o_after ob))
+           ++ chk 3 (forallb (fun nd => match nd with
+                                        | (n, (DRangeDyn lo hi _, _)) =>   (* the readable value of a name-based Range *)
+                                            match get (o_after ob) (rname n) with
+                                            | Some x => opt_eqb pv_eqb (dyn_readable c s1 n lo hi) (Some x)
+                                            | None => true
+                                            end
+                                        | _ => true
+                                        end) c))
       ++ corr_hist E c (i + 1) (o_after ob) r
   end.
 
 Definition corr_codes (c : case) : list Z := let '(E, cl, h) := c in corr_hist E cl 0 [] h.
-Definition law_codes (c : case) : list Z := let '(E, cl, h) := c in law_hist E cl 0 [] h.
+Definition law_codes (c : case) : list Z := let '(E, cl, h) := c in law_hist E cl 0 [] h ++ law_reads cl 0 h.
